@@ -103,6 +103,7 @@ class Macro:
         self.calls = 0
         self.glabels = []
         self.heavy = False
+        self.min_calls = 1
 
 
 class Gen:
@@ -118,6 +119,8 @@ class Gen:
         self.ctr = 0
         self.glabels = []         # global labels defined so far / planned: name
         self.later_refs = []
+        self.helper = None
+        self.empty_macro = None
         self.overridden = False
         self.pre_refs = []
         self.feat = set()
@@ -727,6 +730,211 @@ class Gen:
             pass
         return ['%s\t%s\t%s' % (lab, self.kw('binclude'), ','.join(args))]
 
+    # -- SHIFT inside nested repetitions
+    def shift_block(self, params, vis, levels, maxshift, plain=False):
+        """a repetition (REPT/WHILE/IRP/IRPN/IRPC, `levels` deep) whose innermost body executes SHIFT;
+        returns (lines, number of SHIFTs executed).  The lines of the block are read through the macro
+        expansion before the block runs, so parameters inside it keep the values from before the block."""
+        rng = self.rng
+        inner_max = maxshift
+        kind = rng.choice(['rept', 'while', 'irp', 'irpn', 'irpc'])
+        if levels > 1:
+            passes = 2 if maxshift >= 2 else 1
+        else:
+            passes = rng.randrange(1, min(3, maxshift) + 1)
+        if kind == 'irpn' and passes == 1 and rng.random() < 0.5:
+            pass
+        inner_max = maxshift // passes
+        own = self.take_names(vis, 2)
+        vis = list(vis) + own
+        if levels > 1 and inner_max >= 1:
+            inner, n_in = self.shift_block(params, vis, levels - 1, inner_max, plain)
+        else:
+            inner, n_in = ['\t%s' % self.kw('shift')], 1
+        extra = []
+        if not plain and params and rng.random() < 0.7:
+            ops = [self.rc(rng.choice(params).name)]
+            if rng.random() < 0.4:
+                ops.append(rng.choice(['ARGCOUNT', 'argcount']))
+            extra.append(self.byte_stmt(ops))
+            if rng.random() < 0.3:
+                extra.append(self.byte_stmt([rng.choice(['ALLARGS', 'allargs'])]))
+        body = (extra + inner) if rng.random() < 0.7 else (inner + extra)
+        glob = None
+        if kind == 'rept':
+            hdr = ['\t%s\t%s' % (self.kw('rept'), self.cnt_arg(passes, passes)[0])]
+        elif kind == 'while':
+            w = 'w%d' % self.uid()
+            hdr = ['%s\tset\t0' % w, '\t%s\t%s<%d' % (self.kw('while'), self.rc(w), passes)]
+            body = body + ['%s\tset\t%s+1' % (w, self.rc(w))]
+        elif kind == 'irp':
+            v = own[0]
+            hdr = ['\t%s\t%s,%s' % (self.kw('irp'), v, ','.join(self.hexlit(rng.randrange(0, 99)) for _ in range(passes)))]
+            if not plain and rng.random() < 0.5:
+                body = [self.byte_stmt([self.rc(v)])] + body
+        elif kind == 'irpn':
+            vs = own
+            nargs = 2 * passes - (1 if passes > 1 and rng.random() < 0.5 else 0)
+            hdr = ['\t%s\t2,%s,%s' % (self.kw('irpn'), ','.join(vs), ','.join(str(rng.randrange(0, 99)) for _ in range(nargs)))]
+            if not plain and rng.random() < 0.5:
+                body = [self.byte_stmt([self.rc(vs[0])])] + body
+        else:
+            v = own[0]
+            hdr = ['\t%s\t%s,"%s"' % (self.kw('irpc'), v, ''.join(rng.choice('0123456789') for _ in range(passes)))]
+            if not plain and rng.random() < 0.5:
+                body = [self.byte_stmt([self.rc(v)])] + body
+        return hdr + body + ['\t%s' % self.kw(rng.choice(['endm', 'endm', 'endr']))], passes * n_in
+
+    def after_shift(self, params):
+        rng = self.rng
+        out = []
+        pick = rng.sample(['all', 'cnt', 'par', 'irp'], rng.randrange(2, 5))
+        for k in pick:
+            if k == 'all':
+                out.append(self.byte_stmt([rng.choice(['ALLARGS', 'allargs', 'AllArgs'])]))
+            elif k == 'cnt':
+                out.append(self.byte_stmt([rng.choice(['ARGCOUNT', 'argcount']), 'ARGCOUNT+1'][:rng.randrange(1, 3)]))
+            elif k == 'par':
+                out.append(self.byte_stmt([self.rc(p.name) for p in params]))
+            else:
+                v = self.take_names([p.name for p in params], 1)[0]
+                out += ['\t%s\t%s,%s' % (self.kw('irp'), v, rng.choice(['ALLARGS', 'allargs'])), self.byte_stmt([self.rc(v)]),
+                        '\t%s' % self.kw('endm')]
+        return out
+
+    def helper_macro(self):
+        """a macro that lays down one byte per parameter, $ee for an empty one (shows the position of every argument)"""
+        if self.helper:
+            return []
+        self.helper = 'mh%d' % self.uid()
+        names = self.take_names([], 7, 'B')
+        lines = ['%s\t%s\t%s' % (self.helper, self.kw('macro'), ','.join(names))]
+        for nm in names:
+            lines += ['\t%s\t"%s"<>""' % (self.kw('if'), self.instr(nm)), self.byte_stmt([self.rc(nm)]), '\t%s' % self.kw('else'),
+                      self.byte_stmt(['$ee' if self.mhex else '238']), '\t%s' % self.kw('endif')]
+        lines.append('\t%s' % self.kw('endm'))
+        return lines
+
+    def empty_construct(self, vis):
+        """(lines, definitions needed in front of the macro): a construct that assembles nothing"""
+        rng = self.rng
+        end = '\t%s' % self.kw(rng.choice(['endm', 'endm', 'endr']))
+        k = rng.randrange(8)
+        self.feat.add('empty-body')
+        if k == 0:
+            return ['\t%s\t%s' % (self.kw('rept'), self.cnt_arg(0, 3)[0]), end], []
+        if k == 1:
+            v = self.take_names(vis, 1)[0]
+            return ['\t%s\t%s,%s' % (self.kw('irp'), v, ','.join(self.num_arg() for _ in range(rng.randrange(1, 4)))), end], []
+        if k == 2:
+            vs = self.take_names(vis, 2)
+            return ['\t%s\t2,%s,%s' % (self.kw('irpn'), ','.join(vs), ','.join(str(rng.randrange(99)) for _ in range(rng.randrange(2, 6)))), end], []
+        if k == 3:
+            v = self.take_names(vis, 1)[0]
+            return ['\t%s\t%s,"%s"' % (self.kw('irpc'), v, ''.join(rng.choice('0123456789') for _ in range(rng.randrange(0, 4)))), end], []
+        if k == 4:
+            return ['\t%s\t%s' % (self.kw('while'), rng.choice(['0', '1>2', 'k0=2'])), end], []
+        if k == 5:
+            # never passed, body not empty
+            return ['\t%s\t%s' % (self.kw('rept'), rng.choice(['0', '0-1'])), self.byte_stmt([self.hexlit(rng.randrange(256))]), end], []
+        if k == 6:
+            return ['\t%s\t%s' % (self.kw('while'), rng.choice(['0', '2<1'])), self.byte_stmt([self.hexlit(rng.randrange(256))]), end], []
+        pl = []
+        if not self.empty_macro:
+            self.empty_macro = 'me%d' % self.uid()
+            pl = ['%s\t%s' % (self.empty_macro, self.kw('macro')), '\t%s' % self.kw('endm')]
+        return ['\t%s' % self.empty_macro], pl
+
+    # -- {GLOBALSYMBOLS} on every repetition, labels used outside
+    def c_globrep(self):
+        rng = self.rng
+        kind = rng.choice(['rept', 'while', 'irp', 'irpn', 'irpc'])
+        pre = 'gr%d' % self.uid()
+        opt = '{%s}' % rng.choice(['GLOBALSYMBOLS', 'globalsymbols', 'GlobalSymbols'])
+        end = '\t%s' % self.kw('endm')
+        labels = []
+
+        def put(args):
+            args = list(args)
+            args.insert(rng.randrange(len(args) + 1), opt)
+            return ','.join(args)
+        data = self.byte_stmt([self.hexlit(rng.randrange(256))])
+        if kind == 'rept':
+            lines = ['\t%s\t%s' % (self.kw('rept'), put(['1'])), '%s:%s' % (pre, data), end]
+            labels = [pre]
+        elif kind == 'while':
+            w = 'w%d' % self.uid()
+            lines = ['%s\tset\t0' % w, '\t%s\t%s' % (self.kw('while'), put(['%s<1' % self.rc(w)])), '%s:%s' % (pre, data),
+                     '%s\tset\t%s+1' % (w, self.rc(w)), end]
+            labels = [pre]
+        elif kind == 'irp':
+            v = self.take_names([], 1)[0]
+            syms = rng.sample(SYMS, rng.randrange(1, 4))
+            lines = ['\t%s\t%s' % (self.kw('irp'), put([v] + syms)), '%s_%s:%s' % (pre, self.rc(v), self.byte_stmt([self.rc(v)])), end]
+            labels = ['%s_%s' % (pre, x) for x in syms]
+        elif kind == 'irpn':
+            vs = self.take_names([], 2)
+            syms = rng.sample(SYMS, rng.randrange(1, 4))
+            args = []
+            for x in syms:
+                args += [x, str(rng.randrange(0, 99))]
+            if len(syms) > 1 and rng.random() < 0.4:
+                args.pop()             # ragged tail
+            body = ['%s_%s:%s' % (pre, self.rc(vs[0]), self.byte_stmt([self.rc(vs[0])]))] + self.guarded(Param(vs[1], 'str'), vs)
+            lines = ['\t%s\t%s' % (self.kw('irpn'), put(['2'] + vs + args))] + body + [end]
+            labels = ['%s_%s' % (pre, x) for x in syms]
+        else:
+            v = self.take_names([], 1)[0]
+            chars = rng.sample('abcxyz0189', rng.randrange(1, 4))
+            lines = ['\t%s\t%s' % (self.kw('irpc'), put([v, '"%s"' % ''.join(chars)])),
+                     '%s_%s:%s' % (pre, self.rc(v), self.byte_stmt(["'%s'" % self.instr(v)])), end]
+            labels = ['%s_%s' % (pre, c) for c in chars]
+        self.glabels += labels
+        for l in labels:
+            if rng.random() < 0.5:
+                self.pre_refs.append(l)
+        self.feat.update(['globalsymbols', 'globalsymbols-' + kind, 'global-label-used-outside'])
+        return lines
+
+    # -- a label on a line of its own in front of a construct whose first statement is padded (manual, PADDING)
+    def c_padalign(self):
+        rng = self.rng
+        g = 'gp%d' % self.uid()
+        self.glabels.append(g)
+        if rng.random() < 0.5:
+            self.pre_refs.append(g)
+        lines = ['\tpadding\ton', '\tdc.b\t%s' % ','.join(str(rng.randrange(256)) for _ in range(rng.choice([1, 1, 3, 5])))]
+        words = '\tdc.w\t%s' % ','.join(self.hexlit(rng.randrange(65536)) for _ in range(rng.randrange(1, 4)))
+        k = rng.randrange(6)
+        pre = []
+        if k == 0:
+            fname = 'inc%d' % self.uid()
+            self.files[fname + '.inc'] = words + '\n' + '\n'.join(self.data_lines([], [], 1)) + '\n'
+            con = ['\t%s\t%s' % (self.kw('include'), fname)]
+        elif k == 1:
+            mname = 'mw%d' % self.uid()
+            pre = ['%s\t%s' % (mname, self.kw('macro')), words, '\t%s' % self.kw('endm')]
+            con = ['\t%s' % mname]
+        elif k == 2:
+            con = ['\t%s\t%d' % (self.kw('rept'), rng.randrange(1, 4)), words, '\t%s' % self.kw('endm')]
+        elif k == 3:
+            v = self.take_names([], 1)[0]
+            con = ['\t%s\t%s,%d,%d' % (self.kw('irp'), v, rng.randrange(99), rng.randrange(99)), '\tdc.w\t%s' % v, '\t%s' % self.kw('endm')]
+        elif k == 4:
+            w = 'w%d' % self.uid()
+            con = ['%s\tset\t0' % w, '\t%s\t%s<2' % (self.kw('while'), w), words, '%s\tset\t%s+1' % (w, w), '\t%s' % self.kw('endm')]
+        else:
+            v = self.take_names([], 1)[0]
+            con = ['\t%s\t%s,"%d"' % (self.kw('irpc'), v, rng.randrange(10, 99)), '\tdc.w\t%s' % v, '\t%s' % self.kw('endm')]
+        if k == 4:
+            # the SET line would separate the label from the padded statement
+            lines = pre + lines + con[:1] + ['%s:' % g] + con[1:]
+        else:
+            lines = pre + lines + ['%s:' % g] + con
+        lines += [self.word_stmt([self.rc(g)]), '\tpadding\toff']
+        self.feat.add('lone-label-in-front-of-padded-construct')
+        return lines
+
     # -- macros
     def def_macro(self, visible, force=None):
         """returns the lines of a macro definition and registers it"""
@@ -744,7 +952,8 @@ class Gen:
             np_ = rng.randrange(8, 14)
         else:
             np_ = rng.randrange(14, 21)
-        kind = force or rng.choice(['plain'] * 6 + ['irp', 'shiftrec', 'shift', 'rec', 'argcount', 'attr', 'glob', 'override', 'definer'])
+        kind = force or rng.choice(['plain'] * 6 + ['irp', 'shiftrec', 'shift', 'rec', 'argcount', 'attr', 'glob', 'override', 'definer',
+                                                   'shiftnest', 'shiftnest', 'shiftfwd', 'emptynest', 'emptynest'])
         if kind == 'override' and self.overridden:
             kind = 'plain'
         if kind == 'attr' and not self.has_attr:
@@ -758,6 +967,10 @@ class Gen:
             np_ = 1
         if kind == 'shift':
             np_ = rng.randrange(1, 5)
+        if kind in ('shiftnest', 'shiftfwd'):
+            np_ = rng.randrange(1, 4)
+        if kind == 'emptynest':
+            np_ = rng.randrange(0, 3)
         if kind == 'rec':
             np_ = max(1, min(np_, 4))
         style = rng.choice('AAB')
@@ -766,9 +979,12 @@ class Gen:
         for nm in names:
             typ = rng.choice(['num', 'num', 'num', 'cnt', 'sym', 'str'])
             m.params.append(Param(nm, typ))
-        if kind in ('irp', 'shiftrec', 'shift'):
+        if kind in ('irp', 'shiftrec', 'shift', 'shiftnest', 'emptynest'):
             for p in m.params:
                 p.typ = 'num'
+        if kind == 'shiftfwd':
+            for p in m.params:
+                p.typ = 'str'
         if kind == 'rec':
             m.params[0].typ = 'cnt'
         # defaults
@@ -789,6 +1005,12 @@ class Gen:
             self.feat.add('globalsymbols')
         elif rng.random() < 0.05:
             hdr.append('{NOGLOBALSYMBOLS}')
+        if rng.random() < 0.12:
+            # listing options: accepted in the parameter list, no influence on the code
+            hdr.insert(rng.randrange(len(hdr) + 1), '{%s}' % rng.choice(
+                ['EXPAND', 'NOEXPAND', 'EXPIF', 'NOEXPIF', 'EXPMACRO', 'NOEXPMACRO', 'EXPREST', 'NOEXPREST', 'noexpand']))
+            self.feat.add('listing-option')
+        pre_lines = []
         body = []
         if rng.random() < 0.5 and np_:
             body += self.sweep_line(m.params)
@@ -818,6 +1040,60 @@ class Gen:
                 body.append(self.byte_stmt([rng.choice(['ALLARGS', 'allargs'])]))
                 self.feat.add('allargs')
             self.feat.add('shift')
+        elif kind == 'shiftnest':
+            # SHIFT executed from inside repetitions nested in the macro body, then ALLARGS / ARGCOUNT / the
+            # named parameters at macro level and inside the next block
+            m.variadic = 'shift'
+            m.uses_allargs = True
+            m.nshift = 0
+            for _ in range(rng.randrange(1, 3)):
+                if m.nshift >= 6:
+                    break
+                blk, n = self.shift_block(m.params, vis, rng.choice([1, 1, 2]), 6 - m.nshift)
+                body += blk
+                m.nshift += n
+                body += self.after_shift(m.params)
+            self.feat.update(['shift', 'shift-in-nested-block', 'allargs', 'argcount'])
+        elif kind == 'shiftfwd':
+            # the rest of the list, empty arguments included, handed on to another macro
+            m.variadic = 'shiftfwd'
+            m.uses_allargs = True
+            m.nshift = rng.randrange(1, 3)
+            pre_lines += self.helper_macro()
+            for p in m.params:
+                if rng.random() < 0.5:
+                    body += self.guarded(p, vis)
+            if rng.random() < 0.3:
+                blk, n = self.shift_block([], vis, 1, m.nshift, plain=True)
+                body += blk
+                m.nshift = n
+            else:
+                body += ['\t%s' % self.kw('shift')] * m.nshift
+            body.append('\t%s\t%s' % (self.helper, rng.choice(['ALLARGS', 'allargs'])))
+            if rng.random() < 0.5:
+                body.append(self.byte_stmt([rng.choice(['ARGCOUNT', 'argcount'])]))
+            self.feat.update(['shift', 'allargs', 'allargs-with-empty-arguments'])
+        elif kind == 'emptynest':
+            # constructs with an empty body (or never passed) between private labels of the enclosing macro
+            m.min_calls = 2
+            la = 'lb%d' % self.uid()
+            lb = 'lb%d' % self.uid()
+            if rng.random() < 0.6:
+                body.append(self.word_stmt([self.rc(la)]))
+            body.append('%s:%s' % (la, self.byte_stmt([self.operand(m.params, vis)])))
+            for _ in range(rng.randrange(1, 3)):
+                e, pl = self.empty_construct(vis)
+                pre_lines += pl
+                body += e
+                if rng.random() < 0.4:
+                    body.append(self.word_stmt([self.rc(la)]))
+            body.append('%s:' % lb if rng.random() < 0.5 else '%s:%s' % (lb, self.byte_stmt([self.operand(m.params, vis)])))
+            body.append(self.word_stmt([self.rc(la), self.rc(lb)]))
+            if rng.random() < 0.3:
+                e, pl = self.empty_construct(vis)
+                pre_lines += pl
+                body += e
+            self.feat.update(['empty-body-in-macro', 'private-label'])
         elif kind == 'rec':
             m.rec = True
             p = m.params[0]
@@ -862,7 +1138,7 @@ class Gen:
                     body += self.guarded(p, vis)
         if kind == 'glob':
             m.glabels = []
-        lines = ['%s\t%s\t%s' % (m.name, self.kw('macro'), ','.join(hdr))] + body + ['\t%s' % self.kw('endm')]
+        lines = pre_lines + ['%s\t%s\t%s' % (m.name, self.kw('macro'), ','.join(hdr))] + body + ['\t%s' % self.kw('endm')]
         # a macro whose body loops or calls is not called from inside repetitions (bounds the size of the expansion)
         ops = [(macroexp.split_line(b)[1] or '').upper() for b in body]
         m.heavy = m.rec or any(o in macroexp.STARTERS or o.startswith('MC') or o.startswith('MI') or o == 'INCLUDE' for o in ops)
@@ -896,6 +1172,12 @@ class Gen:
             if n > np_:
                 self.feat.add('excess-args')
             return ['\t%s%s\t%s' % (name, attr, ','.join(args))]
+        if m.variadic == 'shiftfwd':
+            n = np_ + m.nshift + rng.randrange(1, 4)
+            args = [('' if rng.random() < 0.4 else str(rng.randrange(0, 100))) for _ in range(n)]
+            args[-1] = str(rng.randrange(0, 100))
+            self.feat.add('excess-args')
+            return ['\t%s\t%s' % (name, ','.join(args))]
         if m.variadic == 'shift':
             n = rng.randrange(max(np_, m.nshift + np_), min(20, np_ + m.nshift + 2) + 1)
             args = [self.hexlit(rng.randrange(0, 200)) for _ in range(n)]
@@ -990,8 +1272,12 @@ class Gen:
                 ms = [m for m in self.macros if not (m.once and m.calls)]
                 if ms:
                     main += self.call(rng.choice(ms[-4:]), top)
-            elif r < 0.78:
+            elif r < 0.76:
                 main += self.if_wrapped(0, [], [], top)
+            elif r < 0.83:
+                main += self.c_globrep()
+            elif r < 0.88 and self.cpu == '68000':
+                main += self.c_padalign()
             else:
                 main += self.construct(1, [], [], top)
             if rng.random() < 0.3:
@@ -1000,8 +1286,10 @@ class Gen:
                 main.append(self.word_stmt([self.rc(rng.choice(self.glabels))]))
         # every macro is used at least once
         for m in self.macros:
-            if not m.calls and (self.budget > 0 or m.once):
+            while m.calls < m.min_calls and (self.budget > 0 or m.once or m.calls):
                 main += self.call(m, top)
+                if rng.random() < 0.5:
+                    main += self.data_lines([], [], 1)
         # global namesakes of private labels, and references to global labels from the top level
         for name in self.later_refs:
             main.append('%s:' % name)
@@ -1010,6 +1298,8 @@ class Gen:
         for g in self.glabels:
             if rng.random() < 0.5:
                 main.append(self.word_stmt([self.rc(g)]))
+            if rng.random() < 0.15 and g not in self.pre_refs:
+                self.pre_refs.append(g)        # also referenced in front of its definition
         head = ['\tcpu\t%s' % self.cpu]
         if self.cpu == '68000':
             head.append('\tpadding\toff')
@@ -1400,6 +1690,15 @@ def witness_features(files, cs):
         feats.add('backslash-concat')
     if re.search(r'"[^"\n]*[\x00-\x08\x09\x0b-\x1f][^"\n]*"', text_all):
         feats.add('ctrl-char-in-string')
+    if re.search(r'(?im)^\s+padding\s+on', text_all):
+        feats.add('PADDING')
+    for fname in files:
+        ls = files[fname].split('\n')
+        for i in range(len(ls) - 1):
+            o1 = (macroexp.split_line(ls[i])[1] or '').upper()
+            o2 = (macroexp.split_line(ls[i + 1])[1] or '').upper()
+            if o1 in macroexp.STARTERS and o2 in macroexp.ENDERS:
+                feats.add('empty-body')
     # parameter numbers referenced in macro bodies whose internal token byte is TAB / LF / CR, or >= 16
     flags = 0 if cs else re.I
     for mname, ps in macro_params.items():
@@ -1438,7 +1737,7 @@ def witness_features(files, cs):
 def failure_key(pr, feats):
     order = ['MACRO', 'REPT', 'IRP', 'IRPN', 'IRPC', 'WHILE', 'INCLUDE', 'BINCLUDE', 'SHIFT', 'EXITM', 'ALLARGS', 'ARGCOUNT', 'ATTRIBUTE',
              'GLOBALSYMBOLS', 'label', 'default', 'keyword-args', 'excess-args', 'fewer-args', 'empty-arg', 'backslash-concat',
-             'ctrl-char-in-string', 'param8', 'param9', 'param12', 'param16+']
+             'ctrl-char-in-string', 'PADDING', 'empty-body', 'param8', 'param9', 'param12', 'param16+']
     fs = '+'.join(f for f in order if f in feats) or 'none'
     if pr.status == 'differs':
         return 'code-differs-from-hand-expansion:%s' % fs
